@@ -141,10 +141,21 @@ Proof. exact (concat_unbounded MB (proj1 (proj1 (proj2 (proj2 C19_limits_table))
 
 (* ---- C19_depth: the counters are bounded by constants and reject; native depth = counter where every edge is counted *)
 Theorem C19_depth_parser :
-  (forall s d nd c n, d <= PL -> pwalk PL d nd s = Ok (c, n) -> d <= c <= PL /\ nd <= n) /\
+  (* counters <= limit on ANY skeleton, and the native nesting of counted frames (expression levels + blocks) is at
+     most 2 * limit: both counters are cumulative across asm blocks (fixes 4384c6c, 435a7f6) *)
+  (forall s bd d nd c n, d <= PL -> bd <= PL -> pwalk PL bd d nd s = Ok (c, n) ->
+     d <= c <= PL /\ nd <= n /\ n - nd <= (PL - d) + (PL - bd)) /\
   (forall s, has_asm s = false ->
      parse_top PL s = if 1 + counted_depth s <=? PL then Ok (1 + counted_depth s, 1 + counted_depth s) else Err).
 Proof. exact (conj (pwalk_bound PL (proj1 (proj1 C19_limits_table))) (fun s H => parse_top_exact PL s H (proj1 (proj1 C19_limits_table)))). Qed.
+(* #if blocks and asm blocks share ONE limit (fix 4384c6c): in any interleaving, with any expressions in between, more
+   than PL nested blocks are an error; asm blocks nested through line expressions are accepted to exactly PL levels *)
+Theorem C19_depth_interleaved_blocks :
+  (forall s bd d nd, bd <= PL -> PL < bd + block_depth s -> pwalk PL bd d nd s = Err) /\
+  (forall n, parse_lines PL [nest_asm n] = if Z.of_nat n <=? PL then Ok (Z.of_nat n, 2 * Z.of_nat n) else Err).
+Proof.
+  exact (conj (pwalk_rejects_blocks PL) (fun n => nest_asm_lines PL n (proj1 (proj1 C19_limits_table)))).
+Qed.
 Theorem C19_depth_blocks :
   (forall b c n, parse_file_line PL b = Ok (c, n) -> c <= PL) /\
   (forall n, parse_file_line PL (nest_if n) = if Z.of_nat n <=? PL then Ok (Z.of_nat n, Z.of_nat n) else Err).
@@ -159,10 +170,6 @@ Proof. exact (fun e => ewalk_bound EL e (proj1 (proj1 (proj2 C19_limits_table)))
 Theorem C19_depth_operator_chain_refuted :
   forall n, parse_top PL (SChain (leaves (S n))) = Ok (1, 1) /\ eval_recursion_depth (SChain (leaves (S n))) = Z.of_nat n + 1.
 Proof. exact (fun n => conj (chain_parse PL n ltac:(unfold PL; cbv; discriminate)) (chain_eval_depth n)). Qed.
-(* F57: n nested asm blocks are accepted by the parser with n native levels on the stack *)
-Theorem C19_depth_nested_asm_refuted :
-  forall n, exists c, pwalk PL 0 0 (nest_asm n) = Ok (c, Z.of_nat n) /\ c <= PL.
-Proof. exact (fun n => nest_asm_walk PL n ltac:(unfold PL; cbv; discriminate) 0 0 ltac:(unfold PL; cbv; split; discriminate)). Qed.
 (* F56: an #if with n #elif arms is accepted with block counter 1 and n + 1 native frames *)
 Theorem C19_depth_elif_chain_refuted :
   forall n, parse_file_line PL (elif_chain n) = Ok (1, Z.of_nat n + 1).
@@ -186,7 +193,11 @@ Example C19_nonvacuous :
   d_asm_calls 12 = Ok 25 /\ d_asm_calls 13 = Err /\
   f_slice_left 799999999 = Ok (800000000%N, None) /\ f_slice_left 800000000 = Err /\
   f_res 4294967295 = Ok (0%N, Some 4294967295) /\ f_res 4294967296 = Err /\
-  f_bank_bits_res_max 2147483648 = Err /\ f_bank_outp_label 18446744073709551615 = Panic.
+  f_bank_bits_res_max 2147483648 = Err /\ f_bank_outp_label 18446744073709551615 = Panic /\
+  d_mixed [0; 1; 3]%nat 25 = Ok (25, 75) /\ d_mixed [0; 1; 3]%nat 26 = Err /\ d_asm_nest 50 = Ok (50, 100) /\ d_asm_nest 51 = Err /\
+  d_mixed (1 :: repeat 1 49 ++ [3])%nat 1 = Ok (50, 51) /\ d_mixed (1 :: repeat 1 49 ++ [3])%nat 2 = Err /\
+  d_mixed_calls 8 = Ok 25 /\ d_mixed_calls 9 = Err /\
+  f_bank_combo true true false 0 800000000 = Err /\ f_bank_combo true false false 1 99999999 = Ok (800000000%N, Some 100000000) /\ f_bank_combo true false false 1 100000000 = Err.
 Proof. vm_compute. repeat split. Qed.
 
 (* ===== block nesting in the line/directive parser model (the counter added by the F10 repair): accepted programs
